@@ -174,6 +174,9 @@ def run_config(fun, cfg, gen, pi, direct_fx, want_steps=False):
         with warnings.catch_warnings():
             warnings.simplefilter('ignore')
             d = build_derivative(fun, method, n, order, gen, positional)
+            if positional:
+                import copy
+                d = copy.deepcopy(d)       # ... and is used through a deep copy (an equal object)
             val, info = d(pi.x)
             res['val'] = val
             res['info'] = info
